@@ -418,6 +418,34 @@ pub fn gen_c04(out: &mut Out, rng: &mut Rng, thorough: bool) {
         let fc = rng.u8() & 0x7F;
         monitor_line(out, &format!("rtursp {} E={}:{}", hex8(rng.u8()), hex8(fc), hex8(rng.u8())));
     }
+    // … also when earlier bytes are still waiting in the write buffer
+    for _ in 0..(if thorough { 20_000 } else { 1_500 }) {
+        let pre = rng.bytes_in(1, 12);
+        let r = gen_request(rng, None);
+        monitor_line(out, &format!("rtureq {} {} pre={}", hex8(rng.u8()), request(&r), hex_raw(&pre)));
+        let r = gen_response(rng, None);
+        monitor_line(out, &format!("rtursp {} R={} pre={}", hex8(rng.u8()), response(&r), hex_raw(&pre)));
+    }
+    // … and through a client whose previous call was abandoned in the middle of its write
+    for _ in 0..(if thorough { 5_000 } else { 400 }) {
+        let unit = rng.u8();
+        let r1 = loop {
+            let r = gen_request(rng, Some(2));
+            if !matches!(r, Request::Custom(..)) {
+                break r;
+            }
+        };
+        let k = rng.range(1, 5);
+        monitor_line(
+            out,
+            &format!(
+                "cli rtu {} | call {} b=1 w=a{k},p | call RHR:0001:0001 r=d{}",
+                hex8(unit),
+                request(&r1),
+                hex_raw(&spec::rtu_frame(unit, &[0x03, 0x02, 0x00, 0x07]))
+            ),
+        );
+    }
     // corruptions of valid frames
     let samples = if thorough { 200 } else { 16 };
     for i in 0..samples {
@@ -557,7 +585,25 @@ pub fn mon_c04(out: &mut Out, l: &str, r: &str) {
             let expect = hex16(spec::crc16_modbus(&d).swap_bytes());
             out.check(r == expect, || format!("CRC-16/MODBUS of the data is {expect}, library computed {r}"), l);
         }
+        ["cli", "rtu", ..] => {
+            // every frame the client ever put on the wire ends with the CRC of its address and PDU
+            let all: Vec<u8> = r
+                .split(" | ")
+                .flat_map(|p| {
+                    let w = p.split(' ').find_map(|t| t.strip_prefix("w=")).unwrap_or("-");
+                    if w == "-" {
+                        vec![]
+                    } else {
+                        w.split('+').flat_map(|h| p_bytes(h).unwrap()).collect::<Vec<u8>>()
+                    }
+                })
+                .collect();
+            if r.split(" | ").last().is_some_and(|p| p.starts_with("ok ") || p.starts_with("exc ")) {
+                out.check(split_rtu_clean(&all, true).is_some(), || format!("bytes transmitted over the client's lifetime are not CRC-correct frames: {}", hex(&all)), l);
+            }
+        }
         ["rtureq", ..] | ["rtursp", ..] => {
+            out.check(!r.contains("damaged"), || format!("encoder touched bytes already waiting in the buffer: {}", super::codec::trunc(r)), l);
             if let Some(h) = r.strip_prefix("ok ") {
                 let f = p_bytes(h).unwrap();
                 let n = f.len();
